@@ -168,7 +168,11 @@ func VerifStream() {
 				usageOnlyChunk = true
 			}
 		case 5: // junk
-			switch gosym.Choice("junk", 5) {
+			switch gosym.Choice("junk", 7) {
+			case 5: // a JSON object without choices (metadata-only chunk)
+				line = gosym.JSONLine("data: ", map[string]interface{}{})
+			case 6: // an in-band error object
+				line = gosym.JSONLine("data: ", map[string]interface{}{"error": map[string]interface{}{"message": "overloaded"}})
 			case 0:
 				line = "data: {not json"
 			case 1:
